@@ -100,3 +100,20 @@ Theorem C05_github_actions_covers_ref :
     (slice content (p_start p) (p_end p) = Some (ref_of p) /\ p_start p <= p_end p) \/ ends_quoted content p = true.
 Proof. intros content root v pkgs H1 H2 H3 W p Hin. exact (proj1 (Forall_forall _ _) (gha_locations content root v H1 H2 H3 pkgs W) p Hin). Qed.
 Print Assumptions C05_github_actions_covers_ref.
+
+(* pyproject.toml, structural part: every reported location is non-inverted and inside the document, for any tree whose
+   nodes can be sliced and whose string tokens start with a quote character, provided pep508_rs (an oracle of the model)
+   is sane in the sense of PyLocProofs.pep_sane_at: a requirement with a specifier has its first version operator before
+   any ';', and a name no longer than the text when no operator is found.  Both are evaluated on every run. *)
+From VL Require Import Proofs.PyLocProofs.
+Theorem C05_pyproject_structural :
+  forall content (pep508 : bytes -> pep),
+  (forall text dep name spec, strip_outer_quotes (trim text) = Some dep -> pep508 dep = PepSpec name spec -> pep_sane_at text name spec = true) ->
+  forall root pkgs, tree_forall (node_safe content) root = true -> tree_forall (quoted_token content) root = true ->
+  walk_pyproject pep508 content root = Some pkgs ->
+  forall p, In p pkgs -> p_start p <= p_end p /\ p_end p <= blen content.
+Proof.
+  intros content pep508 Hs root pkgs H1 H2 W p Hin.
+  exact (proj1 (Forall_forall _ _) (pyproject_locations content pep508 Hs root pkgs H1 H2 W) p Hin).
+Qed.
+Print Assumptions C05_pyproject_structural.
